@@ -15,12 +15,12 @@ sys.path.insert(0, os.path.join(os.path.dirname(os.path.dirname(os.path.dirname(
 import schemawalk
 
 PROP = 'C03'
-COQ_TARGETS = ['theories/CodecFacts.vo', 'gen/Schemas.vo', 'theories/SchemaTables.vo']
+COQ_TARGETS = ['theories/CodecFacts.vo', 'theories/CodecWf.vo', 'gen/Schemas.vo', 'theories/SchemaTables.vo']
 COQ_IMPORTS = ('From Bac Require Import Base.\nFrom Bac Require Import Tag.\nFrom Bac Require Import Schema.\n'
                'From Bac Require Import Codec.\nFrom BacGen Require Import Schemas.')   # one library per line: much faster to load
 TABLE_OBLIGATIONS = ['C03_all_wf', 'C03_supported_or_listed', 'C03_registries_shape']
 RULE = ('cases: for each of the 58 registered PDUs and every Sequence/Choice class of apdu.py/basetypes.py (all, every run): presence '
-        'patterns of its optional elements (all if <= 8 (quick) / 256 (thorough), else all-absent, all-present, each single one, '
+        'patterns of its optional elements (all if <= 8 (quick) / 64 (thorough), else all-absent, all-present, each single one, '
         'random), every choice alternative, list lengths 0..3, nested values random to the depth of the type, leaves from boundary pools; '
         'each value is encoded (tag list / PDU octets compared) and its encoding decoded (shape + remaining tags compared); malformed '
         'stream = one structural mutation (delete, duplicate, renumber, reclass, swap, truncate, append) of a valid encoding, compared '
@@ -585,7 +585,7 @@ def values_for(name, rng, tier):
     """the systematic family of values of one class"""
     d = cdesc(name)
     out = []
-    cap = 8 if tier == 'quick' else 256
+    cap = 8 if tier == 'quick' else 64
     if d['kind'] == 'seq':
         for p in presence_patterns(name, rng, cap):
             out.append(gen_bounded(name, rng, {'presence': p} if p else None))
@@ -601,7 +601,7 @@ def values_for(name, rng, tier):
     else:
         for r in (0.1, 0.5, 0.9):
             out.append(gen_bounded(name, rng, {'nv': r}))
-    extra = 1 if tier == 'quick' else 12
+    extra = 1 if tier == 'quick' else 6
     for _ in range(extra):
         out.append(gen_bounded(name, rng))
     return out
@@ -659,7 +659,7 @@ def all_names():
 def cases(rng, tier):
     out = []
     names = all_names()
-    nmut = 2 if tier == 'quick' else 6
+    nmut = 2 if tier == 'quick' else 4
     for name in names:
         for tr in values_for(name, rng, tier):
             out.append(case_encode(name, tr))
@@ -798,7 +798,7 @@ def direct(rng, tier, focus=()):
     per_type = {}
     names = all_names()
     samples = []
-    reps = 1 if tier == 'quick' else 6
+    reps = 1 if tier == 'quick' else 4
     focus_types = set()
     for d in focus:
         if isinstance(d, dict) and d.get('type'):
